@@ -11,6 +11,8 @@ import core  # noqa: E402
 
 
 def main():
+  import faulthandler, signal
+  faulthandler.register(signal.SIGUSR1, all_threads=True)    # kill -USR1 <pid> dumps the Python stack (debugging)
   ap = argparse.ArgumentParser()
   ap.add_argument('pid')
   ap.add_argument('--tier', default=os.environ.get('VERIF_TIER', 'quick'))
